@@ -190,17 +190,52 @@ def check_config(rep, prog):
         rep.violate("C14.B-build", "B-build", po.where(), "parse_obj can return Ok(builder) that did not come from Mesh::new validation", config=cfg)
 
 
+def index_order_rule(rep, prog):
+    """F-order: in parse_indices the k-th '/'-separated field feeds pos (k=1), uv (k=2), n (k=3)."""
+    cfg = prog.config
+    b = prog.body("retrofire_geom::io::parse_indices")
+    sl = T.Slicer(b)
+    nexts = [bi for bi, t in b.calls(lambda c: facts.callee_matches(c, "str::iter::Split", "geom::io::next") and (c["path"].endswith("::next") or "::next" in (c.get("res") or {}).get("path", "")))]
+    nexts.sort(key=lambda x: sum(1 for y in nexts if y != x and b.dominates(y, x)))
+    rank = {bi: i for i, bi in enumerate(nexts)}
+    rep.floor("C14.F-order.nexts", len(nexts), 3, "field extractions in parse_indices")
+    aggs = [(bi, si, st) for bi, si, st in b.stmts() if st["k"] == "Assign" and st["rv"]["k"] == "Aggregate" and st["rv"].get("adt", "").endswith("io::Indices")]
+    rep.floor("C14.F-order.agg", len(aggs), 1, "Indices{..} construction")
+    want = {"pos": 0, "uv": 1, "n": 2}
+    for bi, si, st in aggs:
+        ops = dict(zip(st["rv"]["fields"], [sl.operand(o) for o in st["rv"]["ops"]]))
+        got = {}
+        for f, t in ops.items():
+            sites = set()
+            for q in T.walk(t):
+                if q[0] == "call" and q[1].split(" => ")[0].endswith("io::parse_index"):
+                    for r in T.walk(q[2][0]):
+                        if r[0] == "call" and len(r) > 3 and r[3][1] in rank and r[3][0] == b.path:
+                            sites.add(rank[r[3][1]])
+                if q[0] == "call" and "and_then" in q[1] and any(x[0] == "fnptr" and "io::parse_index" in x[1] for x in q[2]):
+                    for r in T.walk(q[2][0]):
+                        if r[0] == "call" and len(r) > 3 and r[3][1] in rank and r[3][0] == b.path:
+                            sites.add(rank[r[3][1]])
+            got[f] = sorted(sites)
+        ok = all(got.get(f) == [k] for f, k in want.items())
+        rep.inst("C14.F-order", "Indices{pos, uv, n} are parsed from '/'-fields number %s (expected pos<-1st, uv<-2nd, n<-3rd): %s" % ({f: [x + 1 for x in v] for f, v in got.items()}, ok), config=cfg)
+        if not ok:
+            rep.violate("C14.F-order", "F-order", b.where(bi, si),
+                        "the position/texcoord/normal indices are not taken from the 1st/2nd/3rd '/'-separated field respectively (%s)" % got, config=cfg)
+
+
 def check(rep, args):
     configs = ["ws"] if rep.tier == "quick" else ["ws", "std"]
     rep.configs = configs
     for cfg in configs:
         check_config(rep, facts.program(cfg))
+        index_order_rule(rep, facts.program(cfg))
     cov = {
         "explanation": "exhaustive panic-edge enumeration over the call graph below parse_obj/read_obj with schema-based discharge, "
                        "plus the Mesh::new callee contract (attribution, precondition on every path, running-maximum invariant)",
         "evaluations": len(rep.instances),
         "distinct_nontrivial": len({i["what"] for i in rep.instances}),
-        "rules": ["P-total", "K-mesh", "B-build"],
+        "rules": ["P-total", "K-mesh", "B-build", "F-order"],
     }
     return "other", cov, [
         "allocation failure and stack overflow are out of scope",
